@@ -92,12 +92,13 @@ Print Assumptions C01_client_adopt_tie.
 Theorem C01_server_downstream_ack_rule :
   (forall u s f, p_len (u_out u) = 0%N -> process_downstream_ack u s f = u) /\
   (forall u s f, (Z.of_N (p_seqno (u_out u)) <> s \/ p_fragment (u_out u) <> f) -> process_downstream_ack u s f = u) /\
+  (forall u s f, p_sentlen (u_out u) = 0%N -> process_downstream_ack u s f = u) /\
   (forall u, let o := u_out u in
-     p_len o <> 0%N -> (p_offset o + p_sentlen o < p_len o)%N ->
+     p_len o <> 0%N -> p_sentlen o <> 0%N -> (p_offset o + p_sentlen o < p_len o)%N ->
      let u' := process_downstream_ack u (Z.of_N (p_seqno o)) (p_fragment o) in
      p_fragment (u_out u') = schar_wrap (p_fragment o + 1) /\ p_seqno (u_out u') = p_seqno o /\
      p_offset (u_out u') = (p_offset o + p_sentlen o)%N /\ p_len (u_out u') = p_len o /\ p_data (u_out u') = p_data o).
-Proof. exact (conj dack_idle (conj dack_mismatch dack_next)). Qed.
+Proof. exact (conj dack_idle (conj dack_mismatch (conj dack_unsent dack_next))). Qed.
 Print Assumptions C01_server_downstream_ack_rule.
 
 (* (F) *)
